@@ -138,9 +138,53 @@ class Run:
         self.inserted_max = None
         self.submitted = {}
         self.remaps = 0
+        self.after_bad = None
+        self.stat = {}
 
     def F_(self, prop, kind, what):
+        if "C11" in self.props:
+            if prop == "C11":
+                return Failure(kind, f"[C11] {what}")
+            if self.after_bad:
+                return Failure(kind, f"[C11] after a rejected call ({self.after_bad}) the remaining valid history no "
+                               f"longer behaves as if that call had never happened: {what}")
+            return None
         return Failure(kind, f"[{prop}] {what}") if prop in self.props else None
+
+    def snapshot(self):
+        o = self.obs()
+        o.pop("bad")
+        o["geom"] = geom(self.a, self.case)
+        return o
+
+    def make_sched(self, entry, n):
+        from ribs.emitters import GaussianEmitter
+        from ribs.schedulers import BanditScheduler, Scheduler
+        em = [GaussianEmitter(self.a, sigma=0.5, x0=np.zeros(self.case["sol_dim"]), batch_size=n, seed=1)]
+        return Scheduler(self.a, em) if entry == "sched_tell" else BanditScheduler(self.a, em, num_active=1)
+
+    def do_bad(self, op, where):
+        import faultlib
+        pre = self.snapshot()
+        res, exc = faultlib.inject(self.a, op, self.dt, self.case["sol_dim"], len(self.case["dims"]),
+                                   self.case["layout"], sched=self.make_sched)
+        self.stat[f"bad:{op['entry']}:{op['arg']}:{op['kind']}:{res}"] = 1
+        if res == "skip":
+            return None
+        desc = f"{op['entry']}({op['arg']}: {op['kind']} at row {op['pos']} of {len(op['rows'])})"
+        post = self.snapshot()
+        if res == "accepted":
+            # a malformed call that is silently accepted must at least not touch the archive (this happens when
+            # no row would be inserted: the store returns before looking at the fields)
+            if post != pre:
+                return self.F_("C11", "oracle", f"{where}: malformed call {desc} was accepted without an error and "
+                               f"changed the archive: {[k for k in pre if pre[k] != post[k]]}")
+            return None
+        if post != pre:
+            return self.F_("C11", "oracle", f"{where}: {desc} raised {exc} but changed the archive: "
+                           f"{[k for k in pre if pre[k] != post[k]]}")
+        self.after_bad = desc
+        return None
 
     def close(self):
         self.drv.close()
@@ -400,6 +444,8 @@ class Run:
                     f = f or self.check_stats(post, where) or self.compare(post, geom(self.a, case), where)
                 elif op["op"] == "retrieve":
                     f = self.retrieve(op["qs"], where)
+                elif op["op"] == "bad":
+                    f = self.do_bad(op, where)
                 if f is not None:
                     return f
             return None
